@@ -418,6 +418,13 @@ func (r *RemoteList) RefreshFromHandshake(vpnAddrs []netip.Addr) {
 	r.Unlock()
 }
 
+// CopyRelays locks and returns a copy of the relay addresses the peer reported
+func (r *RemoteList) CopyRelays() []netip.Addr {
+	r.RLock()
+	defer r.RUnlock()
+	return slices.Clone(r.relays)
+}
+
 // ResetBlockedRemotes locks and clears the blocked remotes list
 func (r *RemoteList) ResetBlockedRemotes() {
 	r.Lock()
